@@ -34,10 +34,14 @@ def run_property(prop: str, repo: str, tier: str, seed: int, *, write_evidence: 
         if len(program.modules) < 37:
             raise AnalysisError(f"only {len(program.modules)} modules parsed under {program.src}, expected >= 37")
         ctx = Context(program, prop, tier)
+        from .rules.common import _IN_PROGRESS
+        _IN_PROGRESS.append(mod.__name__)
         try:
             mod.run(ctx)
         except AbortRules:
             pass
+        finally:
+            _IN_PROGRESS.pop()
         extra = None
         if tier == 'thorough':
             extra = {}
